@@ -552,7 +552,7 @@ fn copy_strategy(vmax: u64, max_entries: usize) -> impl Strategy<Value = CopySpe
     })
 }
 
-fn pair_strategy() -> impl Strategy<Value = PairCase> {
+pub fn pair_strategy() -> impl Strategy<Value = PairCase> {
     let vmax = prop_oneof![3 => Just(12u64), 1 => Just(1_000_000u64)];
     vmax.prop_flat_map(|vmax| (copy_strategy(vmax, 4), proptest::option::weighted(0.85, copy_strategy(vmax, 4)), proptest::option::weighted(0.4, 100u32..600), prop_oneof![3 => Just(false), 1 => Just(true)], prop_oneof![3 => Just(false), 1 => Just(true)], prop_oneof![2 => Just(false), 1 => Just(true)]))
         .prop_map(|(sender, receiver, budget, self_member, receiver_removed_other, receiver_evaluated)| {
